@@ -461,7 +461,11 @@ func replayCallGraph(n *Native, job *Job, v *Violation) (ReplayResult, bool) {
 	if c, ok := v.Witness[v.ID+".count"]; ok {
 		var k int
 		fmt.Sscanf(c, "%d", &k)
-		return ReplayResult{Cmd: "ti " + strings.Join(args, " "), Reproduced: strings.Count(out, "  - total callers: 1\n") != k, Observed: fmt.Sprintf("expected %d sections with one caller in %q", k, tail(out, 900))}, true
+		of := "  - total callers: 1\n"
+		if o, ok := v.Witness[v.ID+".of"]; ok {
+			of = o
+		}
+		return ReplayResult{Cmd: "ti " + strings.Join(args, " "), Reproduced: strings.Count(out, of) != k, Observed: fmt.Sprintf("expected %d occurrences of %q in %q", k, of, tail(out, 900))}, true
 	}
 	want := "  - total callers: 1"
 	if k := v.Witness["C24.sites"]; k != "" {
